@@ -11,6 +11,7 @@ Definition stale_sites : list (string * string * string * string * Z) := [
   ("happysimulator/components/behavior/stimulus.py", "influence_propagation", "event_time", "time=t; t := _to_instant(time)", 0);
   ("happysimulator/components/client/client.py", "Client._send_request.on_complete", "event_time", "time=finish_time", 0);
   ("happysimulator/components/client/connection_pool.py", "ConnectionPool.acquire", "wait_loop", "while elapsed < self._connection_timeout: yield poll_interval", 0);
+  ("happysimulator/components/client/connection_pool.py", "ConnectionPool._handle_warmup", "wait_loop", "while self._total_connections < self._min_connections: yield from self._create_connection()", 0);
   ("happysimulator/components/client/pooled_client.py", "PooledClient._send_request.on_complete", "event_time", "time=finish_time", 0);
   ("happysimulator/components/datastore/cache_warming.py", "CacheWarmer.start_warming", "event_time", "time=Instant.Epoch", 0);
   ("happysimulator/components/datastore/cache_warming.py", "CacheWarmer.warm_keys", "wait_loop", "while True: yield delay", 0);
@@ -30,6 +31,7 @@ Definition stale_sites : list (string * string * string * string * Z) := [
   ("happysimulator/components/infrastructure/cpu_scheduler.py", "CPUScheduler.execute", "wait_loop", "while task.remaining_s > 0: yield self._context_switch_s", 0);
   ("happysimulator/components/infrastructure/cpu_scheduler.py", "CPUScheduler.execute", "wait_loop", "while task.remaining_s > 0: yield self._policy.time_quantum_s(task) if selected else", 0);
   ("happysimulator/components/infrastructure/cpu_scheduler.py", "CPUScheduler.execute", "wait_loop", "while task.remaining_s > 0: yield run_time", 0);
+  ("happysimulator/components/infrastructure/page_cache.py", "PageCache._ensure_space", "wait_loop", "while len(self._pages) >= self._capacity: yield from self._evict_one()", 0);
   ("happysimulator/components/infrastructure/tcp_connection.py", "TCPConnection.send", "wait_loop", "while sent < segments: yield self._rto_s", 0);
   ("happysimulator/components/infrastructure/tcp_connection.py", "TCPConnection.send", "wait_loop", "while sent < segments: yield self.rtt_s", 0);
   ("happysimulator/components/load_balancer/health_check.py", "HealthChecker._check_backend.on_complete", "event_time", "time=finish_time", 0);
@@ -57,6 +59,7 @@ Definition stale_sites : list (string * string * string * string * Z) := [
   ("happysimulator/components/server/async_server.py", "AsyncServer._on_cpu_complete", "stale_now", "events in 'result_events' stamped in the enclosing function, emitted by nested generator io_wrapper after a yield", 0);
   ("happysimulator/components/sync/barrier.py", "Barrier.wait", "wait_loop", "while not released[0]: yield wakeup", 0);
   ("happysimulator/components/sync/condition.py", "Condition.wait", "wait_loop", "while not woken[0]: yield wakeup", 0);
+  ("happysimulator/components/sync/condition.py", "Condition.wait_for", "wait_loop", "while not predicate(): yield from self.wait()", 0);
   ("happysimulator/components/sync/mutex.py", "Mutex.acquire", "wait_loop", "while not acquired[0]: yield wakeup", 0);
   ("happysimulator/components/sync/rwlock.py", "RWLock.acquire_read", "wait_loop", "while not acquired[0]: yield wakeup", 0);
   ("happysimulator/components/sync/rwlock.py", "RWLock.acquire_write", "wait_loop", "while not acquired[0]: yield wakeup", 0);
